@@ -782,6 +782,57 @@ def b_neq_bound_method(p, q, r, f):
     seg = _VPSeg(offset=q, frames=p, rate=r)
     return f(seg.scaled)
 
+def a_isdisjoint(p, q, s):
+    return "t" if not s.isdisjoint({p, q}) else "f"
+def b_isdisjoint(p, q, s):
+    return "t" if p in s or q in s else "f"
+
+def a_product_comp(xs, ys, f):
+    from itertools import product
+    return [f(x, y) for x, y in product(xs, ys)]
+def b_product_comp(xs, ys, f):
+    return [f(x, y) for x in xs for y in ys]
+
+def _vp_merge(defaults, extra):
+    merged = dict(defaults)
+    merged.update(extra)
+    return merged
+def a_dict_copy_update(p, extra):
+    return _vp_merge({"k": p}, extra)
+def b_dict_copy_update(p, extra):
+    return {"k": p, **extra}
+
+def a_shapely_functions(g1, g2):
+    import shapely
+    return shapely.area(shapely.intersection(g1, g2))
+def b_shapely_functions(g1, g2):
+    return g1.intersection(g2).area
+
+def _vp_ident(obj, *fields):
+    values = tuple(getattr(obj, f) for f in fields)
+    if len(values) == 1:
+        return values[0]
+    return values
+def _vp_ident_hash(obj, *fields):
+    return hash(_vp_ident(obj, *fields))
+def a_star_through_helpers(o):
+    return _vp_ident_hash(o, "u"), _vp_ident_hash(o, "a", "b")
+def b_star_through_helpers(o):
+    return hash(o.u), hash((o.a, o.b))
+
+def _vp_name(*parts):
+    return ":".join("{}".format(p) for p in parts)
+def a_join_after_subst(p, q):
+    return _vp_name("seg", p, q)
+def b_join_after_subst(p, q):
+    return f"seg:{p}:{q}"
+
+def a_neq_product_order(xs, ys, f):
+    from itertools import product
+    return [f(x, y) for y, x in product(ys, xs)]
+def b_neq_product_order(xs, ys, f):
+    return [f(x, y) for x in xs for y in ys]
+
 def a_neq_order(p, q):
     return [p, q]
 def b_neq_order(p, q):
@@ -795,8 +846,9 @@ EQUAL = ["helper", "raise_in_helper", "ite", "single_exit", "loop_append", "dict
          "multi_fill", "local_gen", "zip_display", "search_preset", "cond_record", "local_call", "explicit_defaults", "guarded_loop", "isinstance_tuple", "for_else", "range_spelled", "fancy_zip", "helper_kw",
          "gen_return", "counted_while", "join_fstr", "minmax_ite", "gen_display", "int_fold", "dict_call", "clamp_helper",
          "table_items", "star_list", "list_concat", "itemgetter2", "axis_helper", "table_member", "registry",
-         "vararg_helper", "bool_flag", "record_property", "comp_after_subst", "search_helper", "bound_method"]
-DIFFERENT = ["neq_filter", "neq_later_mutation", "neq_order", "neq_search_default", "neq_option", "neq_gen_stop", "neq_vararg", "neq_search_helper", "neq_property_guard", "neq_bound_method"]
+         "vararg_helper", "bool_flag", "record_property", "comp_after_subst", "search_helper", "bound_method",
+         "isdisjoint", "product_comp", "dict_copy_update", "shapely_functions", "star_through_helpers", "join_after_subst"]
+DIFFERENT = ["neq_filter", "neq_later_mutation", "neq_order", "neq_search_default", "neq_option", "neq_gen_stop", "neq_vararg", "neq_search_helper", "neq_property_guard", "neq_bound_method", "neq_product_order"]
 
 
 def _alpha(t, mp):
